@@ -483,7 +483,28 @@ impl<P: SizedPayload> Engine for SchedEngine<P> {
         let _ = viol::take();
         let nthreads = 2 + pick(case.p(0), 3);
         let nallocs = 1 + pick(case.p(1), 2);
-        sim::begin(sim::Config { sched: case.params[8..72.min(case.params.len())].to_vec(), stale: case.params[72.min(case.params.len())..].to_vec(), trace });
+        // "many owners" worlds: thread 0 makes `bulk_n` extra clones of the first value and a dedicated thread drops them
+        // one by one while the programs run (a long stream of single RMWs on the count: contention for CAS loops,
+        // and counts far above anything a few program threads reach). Rare, because the largest one is slow.
+        let bulk_code = case.p(7) >> 2;
+        let bulk_n: usize = if bulk_code < 56 {
+            0
+        } else if bulk_code < 61 {
+            40
+        } else if bulk_code < 63 || case.p(6) >= 16 {
+            300
+        } else {
+            70_000
+        };
+        let nthreads = if bulk_n > 0 { nthreads.min(3) } else { nthreads };
+        // with a bulk dropper, half of the cases use a near-strict alternation of the threads at every atomic access
+        let alternate = bulk_n > 0 && case.p(6) & 1 == 1;
+        let sched_bytes: Vec<u8> = if alternate {
+            (0..4096 + 3 * bulk_n).map(|i| 160 + ((i * 37 + case.p(8) as usize) % 96) as u8).collect()
+        } else {
+            case.params[8..72.min(case.params.len())].to_vec()
+        };
+        sim::begin(sim::Config { sched: sched_bytes, stale: case.params[72.min(case.params.len())..].to_vec(), trace });
         let prev = alloc::set_track(true);
         // thread 0: create the shared values and hand every thread its initial handles
         let roots: Vec<Arc<P>> = (0..nallocs).map(|k| Arc::new(P::make(100 + k as u64))).collect();
@@ -524,6 +545,14 @@ impl<P: SizedPayload> Engine for SchedEngine<P> {
             bodies.push(Box::new(move || {
                 let l = l;
                 run_thread(l.0, ops, sh2, nthreads, trace)
+            }));
+        }
+        if bulk_n > 0 {
+            let bulk: Vec<Arc<P>> = (0..bulk_n).map(|_| roots[0].clone()).collect();
+            bodies.push(Box::new(move || {
+                for h in bulk {
+                    drop(h);
+                }
             }));
         }
         drop(roots);
@@ -586,6 +615,12 @@ impl<P: SizedPayload> Engine for SchedEngine<P> {
         }
         if nthreads >= 3 {
             labels.push("sched:>=3-threads");
+        }
+        if bulk_n > 0 {
+            labels.push(if bulk_n >= 70_000 { "sched:70000-extra-owners" } else if bulk_n >= 300 { "sched:300-extra-owners" } else { "sched:40-extra-owners" });
+        }
+        if alternate {
+            labels.push("sched:alternating-schedule");
         }
         if case.p(7) & 1 == 1 {
             labels.push("sched:shared-root-handles");
